@@ -12,6 +12,7 @@ import (
 	"fmt"
 	"reflect"
 	"regexp"
+	"strings"
 )
 
 // IsSafeTrustedResourceURLPrefix returns whether the given prefix is safe to use as a
@@ -52,6 +53,21 @@ func URLContainsDoubleDotSegment(url string) bool {
 // double dot-segment ".." in url, in its percent-encoded or unencoded form.
 func URLDoubleDotSegmentCount(url string) int {
 	return len(urlDoubleDotSegmentPattern.FindAllStringIndex(url, -1))
+}
+
+// URLDoubleDotPathSegmentCount returns the number of path segments of url that are exactly
+// the double dot-segment "..", in its percent-encoded or unencoded form.
+func URLDoubleDotPathSegmentCount(url string) int {
+	if i := strings.IndexAny(url, "?#"); i >= 0 {
+		url = url[:i]
+	}
+	n := 0
+	for _, segment := range strings.FieldsFunc(url, func(r rune) bool { return r == '/' || r == '\\' }) {
+		if urlDoubleDotSegmentPattern.FindString(segment) == segment && segment != "" {
+			n++
+		}
+	}
+	return n
 }
 
 var urlDoubleDotSegmentPattern = regexp.MustCompile(`(?i)(?:\.|%2e)(?:\.|%2e)`)
